@@ -110,6 +110,25 @@ fn rt_oracle(c: &RtCase, st: &mut Stats) -> Result<(), String> {
     if b0.proof.is_some() || b0.output != ev0.output {
       return Err("restored non-verifiable evaluation differs".into());
     }
+    // "evaluations from arbitrary requests": if the server answers a request for the neutral
+    // element (it may refuse), that evaluation and the request point survive their JSON form too
+    let neutral = point_from(&[0u8; 32]);
+    for verifiable in [false, true] {
+      if let Ok(evn) = server.eval(&neutral, md, verifiable) {
+        st.evals(1);
+        let j = serde_json::to_string(&evn).map_err(|e| e.to_string())?;
+        let back: Evaluation = serde_json::from_str(&j).map_err(|e| format!("the server's evaluation of the neutral element does not restore from its own JSON form {j}: {e}"))?;
+        if back.output != evn.output || back.proof.is_some() != evn.proof.is_some() || serde_json::to_string(&back).map_err(|e| e.to_string())? != j {
+          return Err(format!("restored evaluation of the neutral element differs from the original: {j}"));
+        }
+        let pj = serde_json::to_string(&neutral).map_err(|e| e.to_string())?;
+        let pb: Point = serde_json::from_str(&pj).map_err(|e| format!("the neutral element does not restore from its own JSON form {pj}: {e}"))?;
+        if pb != neutral {
+          return Err("restored neutral element differs".into());
+        }
+        st.class("evaluation-of-the-neutral-element-round-tripped");
+      }
+    }
   }
   if mds.len() >= 2 {
     st.nontrivial(&(mds.len(), c.tag_seed, fp(&c.input.0)));
